@@ -1,5 +1,7 @@
 //! Shared kit of the verification harness: engine, generators, reference evaluators, scheduler.
+pub mod data;
 pub mod engine;
+pub mod refsql;
 pub mod sched;
 pub use engine::{Budget, CaseResult, Outcome, Property, Tier};
 pub fn hello() {}
